@@ -101,7 +101,7 @@ def real_run(job):
         obs.update({
             "lines": lines, "ret": None if lines is None else [idx_of(l) for l in lines],
             "unmatched": [idx_of(l) for l in (p.unmatched or [])],
-            "scan_count": int(p.scan_count), "match_count": int(p.match_count), "stopped": bool(p.stopped),
+            "scan_count": int(p.scan_count), "match_count": int(p.match_count), "stopped": bool(p.stopped), "frozen": bool(p.is_frozen),
             "is_valid": bool(p.is_valid), "vars": canon_vars(p.variables),
             "errors": sorted({(e.line_count) for e in (p.errors or [])}),
             "printouts": list(tp.lines), "calls": calls,
